@@ -292,7 +292,9 @@ def build(chk):
             slots = count_slots(a, sa) + count_slots(b, sb)
             if slots > (6 if op == 'mul' else 8):
                 continue
-            mode = 'signed' if slots <= (3 if chk.tier == 'quick' else 4) else 'positive'
+            # constant monomials of a split-constant polynomial carry a symbolic coefficient each without an id slot: count them as well
+            consts = sum(sh.count(0) for k_, sh_ in ((a, sa), (b, sb)) for sh in ([sh_] if k_ == 'poly' else [sh_[1]] if (k_ == 'func' and sh_[0] == 'polynomial') else []))
+            mode = 'signed' if slots + max(0, consts - 1) <= (3 if chk.tier == 'quick' else 4) else 'positive'
             chk.harness(f'{op}:{a}{list(sa)}x{b}{list(sb)}', mk(op, a, sa, b, sb, callee),
                         bounds={'callee': callee, 'coefficients': mode, 'id_domain': 3 if slots <= 5 else 2})
             njobs += 1
